@@ -68,6 +68,44 @@ Lemma unique_tickinv : forall xss,
   concat (op_run LStatic [] (run_items uniq_istep) xss) = uniq (concat xss).
 Proof. intros. unfold op_run. rewrite static_items_init. apply uniq_items. Qed.
 
+Lemma gen_dead : forall init f l, fst (run_items (gen_istep init f) GDead l) = [].
+Proof.
+  induction l as [|x r IH]; simpl; [reflexivity|].
+  destruct (run_items (gen_istep init f) GDead r). simpl in *. exact IH.
+Qed.
+
+Lemma gen_returned : forall init f l, fst (run_items (gen_istep init f) GReturned l) = [].
+Proof.
+  intros init f [|x r]; simpl; [reflexivity|].
+  pose proof (gen_dead init f r) as D. destruct (run_items (gen_istep init f) GDead r). exact D.
+Qed.
+
+Lemma gen_active : forall init f l a,
+  fst (run_items (gen_istep init f) (GActive a) l) = gen_list f a l.
+Proof.
+  induction l as [|x r IH]; intros a; simpl; [reflexivity|].
+  destruct (f a x) as [a' g]. destruct g.
+  - specialize (IH a'). destruct (run_items (gen_istep init f) (GActive a') r). simpl in *. congruence.
+  - pose proof (gen_returned init f r) as D.
+    destruct (run_items (gen_istep init f) GReturned r). simpl in *. rewrite D. reflexivity.
+  - specialize (IH a'). destruct (run_items (gen_istep init f) (GActive a') r). simpl in *. congruence.
+  - pose proof (gen_dead init f r) as D.
+    destruct (run_items (gen_istep init f) GDead r). simpl in *. exact D.
+Qed.
+
+Lemma gen_init : forall init f l,
+  fst (run_items (gen_istep init f) GInit l) = gen_list f init l.
+Proof.
+  intros init f [|x r]; [reflexivity|].
+  pose proof (gen_active init f (x :: r) init) as A. simpl in A |- *. exact A.
+Qed.
+
+(* TickInv scan::<'static> + flat_map (Stream::generator at top level): once the generator has
+   returned or broken, DFIR scan keeps its state dropped in all later ticks *)
+Lemma gen_tickinv : forall init f xss,
+  concat (op_run LStatic GInit (run_items (gen_istep init f)) xss) = gen_list f init (concat xss).
+Proof. intros. unfold op_run. rewrite static_items_init. apply gen_init. Qed.
+
 (* ------------------------------------------------------------------ blocking aggregates *)
 
 Lemma last_cons_ne : forall (A : Type) (x : A) l d, l <> [] -> last (x :: l) d = last l d.
@@ -221,6 +259,8 @@ Proof.
     apply pairs_perm; eapply equiv_perm; eauto.
   - (* SAntiJoin *) rewrite anti_tickinv by (auto using run_s_length).
     apply equiv_congr; [intros; apply filter_perm; assumption | auto].
+  - (* SGen *) destruct W as [O W]. rewrite gen_tickinv.
+    specialize (IHn bs W NE). rewrite O in IHn |- *. simpl in IHn |- *. rewrite IHn. reflexivity.
 Qed.
 
 Lemma last_map : forall (f : val -> val) yss,
